@@ -155,6 +155,16 @@ class Asm:
         self.items.append(("pushl", name))
         return self
 
+    def mark_at(self, name, delta):
+        """Label = current position + delta (e.g. a byte inside the immediate of the next push)."""
+        self.items.append(("label+", (name, delta)))
+        return self
+
+    def push_expr(self, fn, width):
+        """PUSH<width> of fn(labels) evaluated once all labels are known."""
+        self.items.append(("pushf", (fn, width)))
+        return self
+
     def jump(self, name):
         return self.push_label(name).emit("JUMP")
 
@@ -169,14 +179,22 @@ class Asm:
                 pos += len(v)
             elif kind == "label":
                 self.labels[v] = pos
+            elif kind == "label+":
+                self.labels[v[0]] = pos + v[1]
+            elif kind == "pushf":
+                pos += 1 + v[1]
             else:
                 pos += 3
+        self.labels["__len__"] = pos
         out = b""
         for kind, v in self.items:
             if kind == "raw":
                 out += v
             elif kind == "pushl":
                 out += bytes([0x61]) + self.labels[v].to_bytes(2, "big")
+            elif kind == "pushf":
+                fn, width = v
+                out += push(fn(self.labels) & ((1 << (8 * width)) - 1), width)
         return out
 
 
